@@ -256,7 +256,7 @@ def harnesses(tier):
                       bounds=dict(N=2, max_iter=2), stubs=stubs + ["scaler -> per-column affine map fitted in training column order (stands for StandardScaler)"],
                       assumptions=["0 < train_fdr <= 1"], sample_rate=0.6))
     cfgs = [(2, 2, None, 0), (3, 2, None, 0), (3, 2, "f", 0), (3, 2, "f", 2), (2, 2, None, 1)] if tier == "quick" else \
-        [(2, 3, None, 0), (3, 3, None, 0), (3, 2, "f", 0), (4, 2, None, 0), (4, 3, "f", 0), (3, 2, None, 2), (3, 2, "f", 1)]
+        [(2, 3, None, 0), (3, 3, None, 0), (3, 3, "f", 0), (4, 2, None, 0), (4, 2, "f", 0), (3, 2, None, 2), (3, 2, "f", 1)]
     for n, iters, direction, proba in cfgs:
         hs.append(Harness("fit[n=%d,iters=%d,direction=%s%s]" % (n, iters, direction, ",predict_proba %d col" % proba if proba else ""),
                           dict(n=n, iters=iters, direction=direction, proba=proba), sym, real="fit", functions=funcs,
